@@ -196,7 +196,71 @@ def shard_container_scramble(desc, rec):
         os.unlink(p1); os.unlink(p2)
 
 
+def shard_full_width(desc, rec):
+    """decode direction only: layout-conformant bytes in which a fixed-width string fills its field completely
+    (no terminator).  The reader must return the whole field; the next field must stay aligned."""
+    rng = random.Random(desc["seed"] * 61 + 8)
+    from basictdf.basictdf import TdfEntry as _E
+    for i in range(desc["n"]):
+        kind = ["data3D", "force3D", "platCal", "optical", "events"][i % 5]
+        spec = C.small_block_spec(rng, kind, 1)
+        key = lib.ITEMS_KEY[kind]
+        if not spec[key]:
+            continue
+        j = rng.randrange(len(spec[key]))
+        fld, width = (rng.choice(["lens", "type", "name"]), 32) if kind == "optical" else ("label", 256)
+        pool = gen.CP1252_CHARS if rng.random() < 0.5 else gen.ASCII
+        label = "".join(rng.choice(pool) for _ in range(width))
+        spec[key][j][fld] = label
+        case = {"driver": "layout", "what": "full-width", "kind": kind, "field": fld, "item": j}
+        rec.case({"fw": kind, "f": fld, "l": label[:8], "i": i}, True, sample=case if i % 50 == 0 else None)
+        rc.ALLOW_FULL_WIDTH = True
+        try:
+            x = rc.encode_block(spec)
+        finally:
+            rc.ALLOW_FULL_WIDTH = False
+        rec.count("oracle:C06.full-width-field-decoded-whole")
+        try:
+            blk, used = lib.dec(kind, spec["format"], x, b"", b"\x00\x00")
+        except Exception as e:
+            rec.violation("C06", f"{kind}:full-width-field:decode-raises", f"{type(e).__name__}: {e}", case, exc=e)
+            continue
+        items = {"data3D": lambda: blk.tracks, "force3D": lambda: blk.tracks, "platCal": lambda: [p for _, p in blk.platforms],
+                 "optical": lambda: blk.channels, "events": lambda: blk.events}[kind]()
+        got = lib.view_item(kind, items[j])[fld]
+        if got != label or used != len(x):
+            rec.violation("C06", f"{kind}:full-width-field:decoded-value-differs",
+                          f"{fld} of {width} characters decodes to {len(got)} characters (consumed {used} of {len(x)})", case)
+            rec.violation("C13", "read:full-width-string-through-block", f"{kind}.{fld}", case)
+        # the items after it are still aligned
+        for k_, it in enumerate(spec[key]):
+            if k_ != j and lib.view_item(kind, items[k_]).get("label", None) != it.get("label", None):
+                rec.violation("C06", f"{kind}:full-width-field:following-items-misaligned", f"item {k_}", case)
+                break
+    # table entry comment of 256 characters
+    for i in range(max(5, desc["n"] // 20)):
+        e = {"type": rng.randint(1, 16), "format": 1, "offset": 4096, "size": 10, "cdate": C.rdate(rng),
+             "mdate": C.rdate(rng), "adate": C.rdate(rng), "comment": "".join(rng.choice(gen.ASCII) for _ in range(256))}
+        rc.ALLOW_FULL_WIDTH = True
+        try:
+            raw = rc.encode_entry(e)
+        finally:
+            rc.ALLOW_FULL_WIDTH = False
+        rec.case({"fw-entry": i}, True)
+        rec.count("oracle:C06.full-width-field-decoded-whole")
+        try:
+            got = _E._build(BytesIO(raw)).comment
+        except Exception as ex:
+            rec.violation("C06", "entry:full-width-comment:decode-raises", f"{type(ex).__name__}: {ex}", {"driver": "layout", "what": "full-width"}, exc=ex)
+            continue
+        if got != e["comment"]:
+            rec.violation("C06", "entry:full-width-comment:decoded-value-differs", f"{len(got)} of 256 characters",
+                          {"driver": "layout", "what": "full-width"})
+
+
 def replay(case, rec):
+    if case.get("what") == "full-width":
+        return shard_full_width({"seed": 0, "n": 100}, rec)
     if case.get("what") == "scramble":
         shard_container_scramble({"seed": 0, "n": 30}, rec)
     else:
